@@ -342,6 +342,10 @@ theorem inv_bindLabel (s : State) (l sec : Nat) (off : BitVec 64) (h : Inv s) : 
       | bound _ _ => exact h
       | unbound fx =>
         dsimp only at hwf ⊢
+        split
+        · exact h
+        rename_i hval
+        simp only [hval] at hwf
         have hlab := h.lab l fx hle
         have hfm : ∀ f ∈ fx, f.lr = none → f.fmt ∈ fixupFormats := fun f hf hn => h.fmts _ (hlab.1 f hf hn)
         have LS := bindLoop_spec l sec off fx { secs := s.secs, relocs := s.relocs, kept := [], resolved := 0, err := .ok } hfm
